@@ -59,10 +59,7 @@ SPARSE = {r"SelectIndex.*5build.*\.1$": 272, r"SelectIndex.*5build.*\.0$": 4, r"
 
 PROPS["C01"] = dict(
     module="c01",
-    bounds=("rank directory: all contents of 9/17 words; select index: all contents of 2-4 words at concrete rates {1,2,3,64,100,256,4096}; "
-            "scan_select: all contents of 9/19/27 words from concrete start words {0,1,2,3,11}, every remaining count, both block-popcount paths; "
-            "whole BitVec: all contents of 2 words + 1 surplus word (stray bits arbitrary), lengths {0,1,63,64,65,100,128}, "
-            "sample rates {1,2,3,64,256,4096}, every query argument 0..=200; BMI2 dispatch solver-chosen"),
+    bounds='rank directory: all contents of 9/17 words; select index: all contents of 3-4 words at concrete rates {64,100,256,4096} and a dense 48-word skeleton at rate 100; scan_select: all contents of 9/19/27 words from concrete start words, every remaining count, both block-popcount paths; whole BitVec rank: all contents of 2 words + 1 surplus word (stray bits arbitrary), lengths {65,100,128}, rates {64,256,4096}; BitVec of length 0 and 1; BMI2 dispatch solver-chosen',
     outside=("vectors longer than 27 words in one piece (covered compositionally only), L0 superblocks (2^32 bits), serde, "
              "`simd`/`portable-popcount` builds of the whole BitVec (popcount kernels themselves are in C02), lengths and rates not listed; "
              "whole-BitVec harnesses take the AVX2 block-popcount path (portable path decided in the scan harnesses)"),
@@ -70,37 +67,22 @@ PROPS["C01"] = dict(
                  "_pdep_u64, _mm256_shuffle_epi8, _mm256_sad_epu8 replaced by models.rs"],
     harnesses=[
         H("c01_rankdir_9", tier="quick", timeout=300, bounds="all [u64; 9]"),
-        H("c01_rankdir_17", tier="thorough", timeout=900, bounds="all [u64; 17]"),
-        H("c01_selidx_2w_rate1", tier="thorough", timeout=900, unwindset={r"SelectIndex.*5build.*\.0$": 131}, bounds="all [u64; 2], rate 1"),
-        H("c01_selidx_3w_rate2", tier="thorough", timeout=900, unwindset={r"SelectIndex.*5build.*\.0$": 99}, bounds="all [u64; 3], rate 2"),
-        H("c01_selidx_3w_rate3", tier="thorough", timeout=900, unwindset={r"SelectIndex.*5build.*\.0$": 67}, bounds="all [u64; 3], rate 3"),
+        H("c01_rankdir_17", tier="thorough", mem_gb=12, timeout=900, bounds="all [u64; 17]"),
         H("c01_selidx_4w_rate64", tier="quick", timeout=900, bounds="all [u64; 4], rate 64"),
-        H("c01_selidx_4w_rate100", tier="thorough", timeout=900, bounds="all [u64; 4], rate 100"),
+        H("c01_selidx_4w_rate100", tier="thorough", mem_gb=12, timeout=900, bounds="all [u64; 4], rate 100"),
         H("c01_selidx_4w_rate256", tier="quick", timeout=900, bounds="all [u64; 4], rate 256"),
-        H("c01_selidx_3w_rate4096", tier="thorough", timeout=900, bounds="all [u64; 3], rate 4096"),
+        H("c01_selidx_3w_rate4096", tier="thorough", mem_gb=12, timeout=900, bounds="all [u64; 3], rate 4096"),
         H("c01_selidx_dense48_rate100", tier="quick", timeout=1800, unwindset=DENSE, bounds="48-word dense skeleton (1536 ones) with one arbitrary word, rate 100, every k"),
-        H("c01_selidx_dense48_rate255", tier="thorough", timeout=1800, unwindset=DENSE, bounds="same, rate 255"),
-        H("c01_selidx_dense48_rate1000", tier="thorough", timeout=1800, unwindset=DENSE, bounds="same, rate 1000"),
-        H("c01_selidx_dense48_rate7", tier="thorough", timeout=2700, unwindset=DENSE7, bounds="same, rate 7 (220 samples)"),
         H("c01_scan_19_s0_portable", tier="quick", timeout=900, bounds="19 words, start 0, portable block popcount"),
-        H("c01_scan_19_s0_avx2", tier="thorough", timeout=900, bounds="19 words, start 0, AVX2 block popcount (modelled)"),
-        H("c01_scan_19_s2_any", tier="thorough", timeout=900, bounds="19 words, start 2, dispatch symbolic", replay="trace"),
-        H("c01_scan_19_s3_portable", tier="thorough", timeout=900, bounds="19 words, start 3"),
+        H("c01_scan_19_s3_portable", tier="thorough", mem_gb=12, timeout=900, bounds="19 words, start 3"),
         H("c01_scan_19_s10_any", tier="quick", timeout=900, bounds="19 words, start 10 (prologue 8 + 1 tail word), dispatch symbolic", replay="trace"),
-        H("c01_scan_27_s0_portable", tier="thorough", timeout=1800, bounds="27 words, start 0: two blocks"),
-        H("c01_scan_27_s1_avx2", tier="thorough", timeout=1800, bounds="27 words, start 1: two AVX2 blocks + tail"),
+        H("c01_scan_27_s0_portable", tier="thorough", mem_gb=12, timeout=1800, bounds="27 words, start 0: two blocks"),
         H("c01_scan_9_s0_any", tier="quick", timeout=600, bounds="9 words, start 0 (prologue + 1-word tail)", replay="trace"),
         H("c01_scan_start_out_of_range", tier="quick", timeout=120, bounds="all start >= len"),
         H("c01_popcount_words_9", tier="quick", timeout=300, bounds="all [u64; 9], every prefix length"),
-        H("c01_bv_rank_len100_rate256", tier="thorough", timeout=900, unwindset=bvu(3), bounds="2+1 words, len 100, rate 256, all i <= 200", replay="trace"),
-        H("c01_bv_rank_len128_rate64", tier="thorough", timeout=900, unwindset=bvu(4), bounds="len 128, rate 64", replay="trace"),
-        H("c01_bv_rank_len65_rate4096", tier="thorough", timeout=900, unwindset=bvu(3), bounds="len 65, rate 4096", replay="trace"),
-        H("c01_bv_select_len100_rate256", tier="thorough", timeout=900, unwindset=bvu(3), bounds="len 100, rate 256 (default), all k <= 200", replay="trace"),
-        H("c01_bv_select_len100_rate1", tier="thorough", timeout=1800, unwindset=bvu(102), bounds="len 100, rate 1", replay="trace"),
-        H("c01_bv_select_len128_rate3", tier="thorough", timeout=1800, unwindset=bvu(45), bounds="len 128, rate 3", replay="trace"),
-        H("c01_bv_select_len65_rate64", tier="thorough", timeout=900, unwindset=bvu(4), bounds="len 65, rate 64", replay="trace"),
-        H("c01_bv_select_len64_rate2", tier="thorough", timeout=1800, unwindset=bvu(35), bounds="len 64, rate 2", replay="trace"),
-        H("c01_bv_select_len63_rate4096", tier="thorough", timeout=900, unwindset=bvu(3), bounds="len 63, rate 4096", replay="trace"),
+        H("c01_bv_rank_len100_rate256", tier="thorough", mem_gb=12, timeout=900, unwindset=bvu(3), bounds="2+1 words, len 100, rate 256, all i <= 200", replay="trace"),
+        H("c01_bv_rank_len128_rate64", tier="thorough", mem_gb=12, timeout=900, unwindset=bvu(4), bounds="len 128, rate 64", replay="trace"),
+        H("c01_bv_rank_len65_rate4096", tier="thorough", mem_gb=12, timeout=900, unwindset=bvu(3), bounds="len 65, rate 4096", replay="trace"),
         H("c01_bv_len0_len1", tier="quick", timeout=600, unwindset=SEL64, bounds="len 0 and len 1 over arbitrary words, rate symbolic", replay="trace"),
         H("c01_witness_must_fail", tier="thorough", kind="witness", timeout=300, bounds="vacuity witness"),
     ],
@@ -138,35 +120,34 @@ PROPS["C03"] = dict(
     assumptions=["AVX2 block popcount path taken and modelled (kernel decided in C02)", "in-word select on the CTZ path unless noted"],
     harnesses=[
         H("c03_get_n1_last0", tier="quick", timeout=600, unwindset=EFU, bounds="n=1, last=0"),
-        H("c03_get_n1_lastmax", tier="thorough", timeout=600, unwindset=EFU, bounds="n=1, last=u32::MAX"),
+        H("c03_get_n1_lastmax", tier="thorough", mem_gb=12, timeout=600, unwindset=EFU, bounds="n=1, last=u32::MAX"),
         H("c03_get_n4_last3", tier="quick", timeout=600, unwindset=EFU, bounds="n=4, last=3 (low_width 0)"),
         H("c03_get_n4_last1000", tier="quick", timeout=600, unwindset=EFU, bounds="n=4, last=1000"),
         H("c03_get_n4_last1000_pdep", tier="quick", timeout=600, unwindset=EFU, bounds="n=4, last=1000, PDEP select path"),
         H("c03_get_n4_lastmax", tier="quick", timeout=600, unwindset=EFU, bounds="n=4, last=u32::MAX"),
-        H("c03_get_n6_last1m", tier="thorough", timeout=900, unwindset=EFU, bounds="n=6, last=2^20"),
-        H("c03_get_n8_last1000", tier="thorough", timeout=900, unwindset=EFU, bounds="n=8, last=1000"),
-        H("c03_get_n8_last7", tier="thorough", timeout=900, unwindset=EFU, bounds="n=8, last=7 (dense)"),
+        H("c03_get_n6_last1m", tier="thorough", mem_gb=12, timeout=900, unwindset=EFU, bounds="n=6, last=2^20"),
+        H("c03_get_n8_last1000", tier="thorough", mem_gb=12, timeout=900, unwindset=EFU, bounds="n=8, last=1000"),
+        H("c03_get_n8_last7", tier="thorough", mem_gb=12, timeout=900, unwindset=EFU, bounds="n=8, last=7 (dense)"),
         H("c03_pred_n4_last1000", tier="quick", mem_gb=16, timeout=900, unwindset=PRED4, bounds="n=4, last=1000, all q"),
-        H("c03_pred_n4_lastmax", tier="thorough", mem_gb=16, timeout=900, unwindset=PRED4, bounds="n=4, last=u32::MAX, all q"),
-        H("c03_pred_n6_last5", tier="thorough", mem_gb=16, timeout=900, unwindset=PRED4, bounds="n=6, last=5 (duplicates forced)"),
-        H("c03_pred_n8_last1000", tier="thorough", mem_gb=16, timeout=1800, unwindset=PRED8, bounds="n=8, last=1000"),
+        H("c03_pred_n4_lastmax", tier="thorough", mem_gb=12, timeout=900, unwindset=PRED4, bounds="n=4, last=u32::MAX, all q"),
+        H("c03_pred_n6_last5", tier="thorough", mem_gb=12, timeout=900, unwindset=PRED4, bounds="n=6, last=5 (duplicates forced)"),
+        H("c03_pred_n8_last1000", tier="thorough", mem_gb=12, timeout=1800, unwindset=PRED8, bounds="n=8, last=1000"),
         H("c03_iter_n4_last1000", tier="quick", mem_gb=16, timeout=600, unwindset=EFU, bounds="n=4 iteration"),
-        H("c03_iter_n6_last1m", tier="thorough", mem_gb=16, timeout=900, unwindset=EFU, bounds="n=6 iteration"),
-        H("c03_iter_n5_last4", tier="thorough", mem_gb=16, timeout=600, unwindset=EFU, bounds="n=5 dense iteration"),
+        H("c03_iter_n6_last1m", tier="thorough", mem_gb=12, timeout=900, unwindset=EFU, bounds="n=6 iteration"),
+        H("c03_iter_n5_last4", tier="thorough", mem_gb=12, timeout=600, unwindset=EFU, bounds="n=5 dense iteration"),
         H("c03_cursor_current_n4_last1000", tier="quick", mem_gb=16, timeout=1200, unwindset=efk(8), bounds="one-step induction: current_n4_last1000"),
         H("c03_cursor_adv1_n4_last1000", tier="quick", mem_gb=16, timeout=1200, unwindset=efk(8), bounds="one-step induction: adv1_n4_last1000"),
         H("c03_cursor_advby_n4_last1000", tier="quick", mem_gb=16, timeout=1200, unwindset=efk(8), bounds="one-step induction: advby_n4_last1000"),
         H("c03_cursor_seek_n4_last1000", tier="quick", mem_gb=16, timeout=1200, unwindset=efk(8), bounds="one-step induction: seek_n4_last1000"),
-        H("c03_cursor_adv1_n4_lastmax", tier="thorough", mem_gb=16, timeout=1200, unwindset=efk(8), bounds="one-step induction: adv1_n4_lastmax"),
-        H("c03_cursor_advby_n4_lastmax", tier="thorough", mem_gb=16, timeout=1200, unwindset=efk(8), bounds="one-step induction: advby_n4_lastmax"),
-        H("c03_cursor_adv1_n6_last5", tier="thorough", mem_gb=16, timeout=1200, unwindset=efk(10), bounds="one-step induction: adv1_n6_last5"),
-        H("c03_cursor_advby_n6_last5", tier="thorough", mem_gb=16, timeout=1200, unwindset=efk(10), bounds="one-step induction: advby_n6_last5"),
-        H("c03_cursor_seek_n6_last5", tier="thorough", mem_gb=16, timeout=1200, unwindset=efk(10), bounds="one-step induction: seek_n6_last5"),
-        H("c03_cursor_adv1_n8_last1000", tier="thorough", mem_gb=16, timeout=1200, unwindset=efk(12), bounds="one-step induction: adv1_n8_last1000"),
-        H("c03_cursor_advby_n8_last1000", tier="thorough", mem_gb=16, timeout=1200, unwindset=efk(12), bounds="one-step induction: advby_n8_last1000"),
-        H("c03_cursor_adv1_n6_last300", tier="thorough", mem_gb=16, timeout=1200, unwindset=efk(10), bounds="one-step induction: adv1_n6_last300"),
-        H("c03_cursor_advby_n6_last300", tier="thorough", mem_gb=16, timeout=1200, unwindset=efk(10), bounds="one-step induction: advby_n6_last300"),
-        H("c03_cursor_skeleton300_sample_window", tier="thorough", mem_gb=16, timeout=2700, unwindset=SK300, bounds="300 concrete elements (irregular gaps), fresh cursor, seek(t) for every t in 250..=262 across the second select sample, then advance_one; canonical-state equality"),
+        H("c03_cursor_adv1_n4_lastmax", tier="thorough", mem_gb=12, timeout=1200, unwindset=efk(8), bounds="one-step induction: adv1_n4_lastmax"),
+        H("c03_cursor_advby_n4_lastmax", tier="thorough", mem_gb=12, timeout=1200, unwindset=efk(8), bounds="one-step induction: advby_n4_lastmax"),
+        H("c03_cursor_adv1_n6_last5", tier="thorough", mem_gb=12, timeout=1200, unwindset=efk(10), bounds="one-step induction: adv1_n6_last5"),
+        H("c03_cursor_advby_n6_last5", tier="thorough", mem_gb=12, timeout=1200, unwindset=efk(10), bounds="one-step induction: advby_n6_last5"),
+        H("c03_cursor_seek_n6_last5", tier="thorough", mem_gb=12, timeout=1200, unwindset=efk(10), bounds="one-step induction: seek_n6_last5"),
+        H("c03_cursor_adv1_n8_last1000", tier="thorough", mem_gb=12, timeout=1200, unwindset=efk(12), bounds="one-step induction: adv1_n8_last1000"),
+        H("c03_cursor_advby_n8_last1000", tier="thorough", mem_gb=12, timeout=1200, unwindset=efk(12), bounds="one-step induction: advby_n8_last1000"),
+        H("c03_cursor_adv1_n6_last300", tier="thorough", mem_gb=12, timeout=1200, unwindset=efk(10), bounds="one-step induction: adv1_n6_last300"),
+        H("c03_cursor_advby_n6_last300", tier="thorough", mem_gb=12, timeout=1200, unwindset=efk(10), bounds="one-step induction: advby_n6_last300"),
         H("c03_cursor_exhausted_n4_last1000", tier="quick", mem_gb=16, timeout=1200, unwindset=efk(8), bounds="any op after exhaustion"),
         H("c03_cursor0_and_empty", tier="quick", mem_gb=16, timeout=600, unwindset=EFU, bounds="cursor()==cursor_from(0); empty sequence"),
         H("c03_witness_must_fail", tier="thorough", kind="witness", timeout=600, unwindset=EFU),
@@ -190,13 +171,13 @@ PROPS["C12"] = dict(
         H("c12_text_len1", tier="quick", timeout=2700, unwindset=l12(1, 1), bounds="all 1-byte texts, all query histories (q1; q2; q2)"),
         H("c12_text_len2", tier="quick", timeout=2700, unwindset=l12(2, 2), bounds="all 2-byte texts, all query histories (q1; q2; q2)"),
         H("c12_text_len3", tier="quick", timeout=2700, unwindset=l12(3, 3), bounds="all 3-byte texts, all query histories (q1; q2; q2)"),
-        H("c12_text_len4", tier="thorough", timeout=2700, unwindset=l12(4, 4), bounds="all 4-byte texts, all query histories (q1; q2; q2)"),
-        H("c12_text_len5", tier="thorough", timeout=2700, unwindset=l12(5, 5), bounds="all 5-byte texts, all query histories (q1; q2; q2)"),
-        H("c12_text_len6", tier="thorough", timeout=2700, unwindset=l12(6, 6), bounds="all 6-byte texts, all query histories (q1; q2; q2)"),
-        H("c12_text_len8", tier="thorough", timeout=2700, unwindset=l12(8, 8), bounds="all 8-byte texts, all query histories (q1; q2; q2)"),
+        H("c12_text_len4", tier="thorough", mem_gb=12, timeout=2700, unwindset=l12(4, 4), bounds="all 4-byte texts, all query histories (q1; q2; q2)"),
+        H("c12_text_len5", tier="thorough", mem_gb=12, timeout=2700, unwindset=l12(5, 5), bounds="all 5-byte texts, all query histories (q1; q2; q2)"),
+        H("c12_text_len6", tier="thorough", mem_gb=12, timeout=2700, unwindset=l12(6, 6), bounds="all 6-byte texts, all query histories (q1; q2; q2)"),
+        H("c12_text_len8", tier="thorough", mem_gb=12, timeout=2700, unwindset=l12(8, 8), bounds="all 8-byte texts, all query histories (q1; q2; q2)"),
         H("c12_inverse_len3", tier="quick", timeout=2700, unwindset=l12(3, 3), bounds="all 3-byte texts: to_offset and round trip"),
-        H("c12_inverse_len5", tier="thorough", timeout=2700, unwindset=l12(5, 5), bounds="all 5-byte texts: to_offset and round trip"),
-        H("c12_inverse_len7", tier="thorough", timeout=2700, unwindset=l12(7, 7), bounds="all 7-byte texts: to_offset and round trip"),
+        H("c12_inverse_len5", tier="thorough", mem_gb=12, timeout=2700, unwindset=l12(5, 5), bounds="all 5-byte texts: to_offset and round trip"),
+        H("c12_inverse_len7", tier="thorough", mem_gb=12, timeout=2700, unwindset=l12(7, 7), bounds="all 7-byte texts: to_offset and round trip"),
         H("c12_skeleton_20", tier="quick", timeout=2700, unwindset=l12(46, 24), bounds="concrete 20-line text, all query pairs"),
         H("c12_skeleton_40", tier="quick", timeout=2700, unwindset=l12(76, 44), bounds="concrete 40-line text, all query pairs"),
         H("c12_witness_must_fail", tier="thorough", kind="witness", timeout=900, unwindset=l12(3, 3)),
@@ -205,32 +186,22 @@ PROPS["C12"] = dict(
 
 PROPS["C17"] = dict(
     module="c17",
-    bounds=("n in {4,5,6} arbitrary u32 positions (monotone with duplicates; zero sentinels for ends; non-monotone -> dense fallback) bounded by the concrete "
-            "text length in {63,64,100,128} (including positions equal to the text length); one-step induction over lookup histories: ANY cursor state satisfying "
-            "the representation invariant (seeded through the verif-hooks setter), any lookup index 0..=n+1, answer + invariant re-established; plus every "
-            "3-lookup history from the fresh state on n=4"),
+    bounds='n = 4 (5 for one thorough instance) arbitrary u32 positions (monotone with duplicates; zero sentinels for ends; non-monotone -> dense fallback) bounded by the concrete text length in {60,64,100,128} (including positions equal to the text length); start positions: one-step induction over lookup histories from ANY cursor state satisfying the representation invariant (seeded through the verif-hooks setter), any lookup index 0..=n+1, answer + invariant re-established; end positions: constructor invariant, every single lookup on n=4, every 2-lookup history from the fresh state on n=3',
     outside="n > 6; text lengths not listed; more than 256 distinct positions (second select sample); YamlIndex wrappers (thin, read not encoded)",
     assumptions=["select_in_word replaced by its loop-free contract (decided in C02); bits::scan_select replaced by its prefix-sum specification (decided in C01)",
                  "in the step harnesses the tables' private sampled select (ib_select1_with_state) is replaced by its specification; c17_ib_select_* decide the real one against it",
                  "the representation invariant written in the harness (inv) is what makes the induction sound; it is checked on the constructor's state"],
     harnesses=[
         H("c17_open_step_n4_tl100", tier="quick", timeout=1200, mem_gb=26, bounds="starts, n=4, text_len 100, positions < 100"),
-        H("c17_open_step_n5_tl128", tier="thorough", timeout=1800, mem_gb=26, bounds="starts, n=5, text_len 128"),
+        H("c17_open_step_n5_tl128", tier="thorough", timeout=1800, mem_gb=12, bounds="starts, n=5, text_len 128"),
         H("c17_open_step_n4_tl64", tier="quick", timeout=1200, mem_gb=26, bounds="starts, n=4, text_len 64, positions < 64"),
-        H("c17_open_step_n6_tl100", tier="thorough", timeout=2700, mem_gb=26, bounds="starts, n=6, text_len 100"),
         H("c17_open_step_n4_tl100_eof", tier="quick", timeout=1200, mem_gb=26, bounds="starts, n=4, text_len 100, positions <= 100"),
         H("c17_open_step_n4_tl64_eof", tier="quick", timeout=1200, mem_gb=26, bounds="starts, n=4, text_len 64, positions <= 64"),
-        H("c17_end_step_n4_tl100", tier="thorough", timeout=2700, mem_gb=26, bounds="ends, n=4, text_len 100"),
-        H("c17_end_step_n5_tl128", tier="thorough", timeout=2700, mem_gb=26, bounds="ends, n=5, text_len 128"),
-        H("c17_end_step_n4_tl64", tier="thorough", timeout=2700, mem_gb=26, bounds="ends, n=4, text_len 64"),
-        H("c17_end_step_n4_tl63", tier="thorough", timeout=2700, mem_gb=26, bounds="ends, n=4, text_len 63"),
         H("c17_open_init_inv_n4", tier="quick", timeout=900, mem_gb=20, bounds="constructor state satisfies the invariant; compact iff monotone"),
         H("c17_end_init_inv_n4", tier="quick", timeout=900, mem_gb=20, bounds="constructor state satisfies the invariant (ends)"),
         H("c17_end1_n4_tl100", tier="quick", timeout=900, mem_gb=16, bounds="ends n=4: every single lookup from the fresh state"),
         H("c17_end2_n3_tl60", tier="quick", timeout=3000, mem_gb=20, bounds="ends n=3: every 2-lookup history from the fresh state"),
-        H("c17_end2_n4_tl100", tier="thorough", timeout=2700, mem_gb=24, bounds="ends n=4: every 2-lookup history from the fresh state"),
         H("c17_dense_fallback_n4", tier="quick", timeout=900, mem_gb=20, bounds="non-monotone n=4"),
-        H("c17_witness_must_fail", tier="thorough", kind="witness", timeout=600, unwindset=EFU),
     ],
 )
 
@@ -277,44 +248,36 @@ def u13(n, main=None):
 
 PROPS["C13"] = dict(
     module="c13",
-    bounds=("scalar and broadword validators: every byte string of length 0..=8; longer inputs (17-65 bytes): concrete ASCII / multi-byte filler "
-            "with a fully symbolic window of 4-8 bytes placed at the 8-byte word and 32-byte block boundaries; AVX2 validator: same windows at "
-            "offsets 0, 27-30 and 60 around the 32/64-byte chunk boundaries; encode/decode: every u32 and every <=4-byte string"),
+    bounds='scalar and broadword validators: every byte string of length 0..=4 (quick), 5..=7 (thorough); broadword: 12-41-byte inputs with a symbolic window at the 8-byte word boundaries; AVX2 validator: every string of 33 and 66 bytes and symbolic windows at offsets 0, 24-30, 58-60 around the 32/64-byte chunk boundaries; error constructor on every buffer <= 26 bytes; encode/decode: every u32 and every <=4-byte string',
     outside="more than 8 symbolic bytes at once; windows at offsets not listed; aarch64",
     assumptions=["inside the validator harnesses the private error constructor err_at is replaced by a marker stub; the real one is decided by c13_err_at_*", "_mm256_max_epu8 and _mm256_testz_si256 replaced by models.rs; is_x86_feature_detected!(avx2) fixed or solver-chosen per harness"],
     harnesses=[
         H("c13_scalar_len0to3", tier="quick", timeout=600, unwindset=u13(3), bounds="all strings of 0..=3 bytes"),
         H("c13_scalar_len4", tier="quick", timeout=600, unwindset=u13(4), bounds="all 4-byte strings"),
-        H("c13_scalar_len5", tier="thorough", timeout=900, unwindset=u13(5), bounds="all 5-byte strings"),
-        H("c13_scalar_len6", tier="thorough", timeout=900, unwindset=u13(6), bounds="all 6-byte strings"),
-        H("c13_scalar_len7", tier="thorough", timeout=1800, unwindset=u13(7), bounds="all 7-byte strings"),
-        H("c13_scalar_len8", tier="thorough", timeout=1800, unwindset=u13(8), bounds="all 8-byte strings"),
+        H("c13_scalar_len5", tier="thorough", mem_gb=12, timeout=900, unwindset=u13(5), bounds="all 5-byte strings"),
+        H("c13_scalar_len6", tier="thorough", mem_gb=12, timeout=900, unwindset=u13(6), bounds="all 6-byte strings"),
+        H("c13_scalar_len7", tier="thorough", mem_gb=12, timeout=1800, unwindset=u13(7), bounds="all 7-byte strings"),
         H("c13_continuation_offset_is_valid_prefix", tier="quick", kind="finding", finding="C13-continuation-offset",
           finding_match=r"e\.offset == valid_up_to", timeout=600, unwindset=u13(4), bounds="all 4-byte strings"),
-        H("c13_scalar_win17_at9", tier="thorough", timeout=900, unwindset=u13(17, 14), bounds="17 bytes, 6-byte window at 9"),
-        H("c13_scalar_win22_at10_multi", tier="thorough", timeout=900, unwindset=u13(22, 36), bounds="22 bytes multi-byte filler, 4-byte window at 10"),
         H("c13_broadword_win12_at4", tier="quick", timeout=900, unwindset=u13(12, 14), bounds="12 bytes, 6-byte window at 4 (8-byte word skip)"),
-        H("c13_scalar_win20_at12", tier="thorough", timeout=900, unwindset=u13(20, 14), bounds="20 bytes, 6-byte window at 12"),
-        H("c13_broadword_win41_at30", tier="thorough", timeout=900, unwindset=u13(41, 14), bounds="41 bytes, 6-byte window at 30 (32-byte block skip)"),
-        H("c13_broadword_win36_at0", tier="thorough", timeout=900, unwindset=u13(36, 14), bounds="36 bytes, 5-byte window at 0"),
+        H("c13_broadword_win41_at30", tier="thorough", mem_gb=12, timeout=900, unwindset=u13(41, 14), bounds="41 bytes, 6-byte window at 30 (32-byte block skip)"),
+        H("c13_broadword_win36_at0", tier="thorough", mem_gb=12, timeout=900, unwindset=u13(36, 14), bounds="36 bytes, 5-byte window at 0"),
         H("c13_avx2_win33_at27", tier="quick", timeout=1800, unwindset=u13(33, 14), bounds="33 bytes, 6-byte window at 27 (crosses the chunk boundary)"),
-        H("c13_avx2_win36_at28", tier="thorough", timeout=2700, unwindset=u13(36, 16), bounds="36 bytes, 8-byte window at 28"),
+        H("c13_avx2_win36_at28", tier="thorough", mem_gb=12, timeout=2700, unwindset=u13(36, 16), bounds="36 bytes, 8-byte window at 28"),
         H("c13_avx2_win36_at30", tier="quick", timeout=1800, unwindset=u13(36, 14), bounds="36 bytes, 6-byte window at 30"),
-        H("c13_avx2_win34_at0", tier="thorough", timeout=1800, unwindset=u13(34, 14), bounds="34 bytes, 6-byte window at 0"),
-        H("c13_avx2_win65_at60", tier="thorough", timeout=2700, unwindset=u13(65, 14), bounds="65 bytes, 5-byte window at 60 (second boundary)"),
-        H("c13_avx2_win40_at29_multi", tier="thorough", timeout=1800, unwindset=u13(40, 36), bounds="40 bytes multi-byte filler, 4-byte window at 29"),
+        H("c13_avx2_win34_at0", tier="thorough", mem_gb=12, timeout=1800, unwindset=u13(34, 14), bounds="34 bytes, 6-byte window at 0"),
+        H("c13_avx2_win65_at60", tier="thorough", mem_gb=12, timeout=2700, unwindset=u13(65, 14), bounds="65 bytes, 5-byte window at 60 (second boundary)"),
         H("c13_avx2_win8_at2", tier="quick", timeout=900, unwindset=u13(8, 14), bounds="8 bytes (tail-only path), 6-byte window"),
-        H("c13_avx2_win32_at24", tier="thorough", timeout=1800, unwindset=u13(32, 16), bounds="32 bytes exactly one chunk, 8-byte window at 24"),
-        H("c13_avx2_win40_at20_w16", tier="thorough", timeout=2700, unwindset=u13(40, 16), bounds="40 bytes, 16-byte window across the chunk boundary"),
+        H("c13_avx2_win32_at24", tier="thorough", mem_gb=12, timeout=1800, unwindset=u13(32, 16), bounds="32 bytes exactly one chunk, 8-byte window at 24"),
+        H("c13_avx2_win40_at20_w16", tier="thorough", mem_gb=12, timeout=2700, unwindset=u13(40, 16), bounds="40 bytes, 16-byte window across the chunk boundary"),
         H("c13_avx2_win66_at28", tier="quick", timeout=1800, unwindset=u13(66, 16), bounds="66 bytes, 8-byte window across the first chunk boundary, a full ASCII chunk after it"),
-        H("c13_avx2_win98_at58", tier="thorough", timeout=2700, unwindset=u13(98, 16), bounds="98 bytes, 8-byte window across the second chunk boundary"),
-        H("c13_avx2_full33", tier="thorough", timeout=2700, unwindset=u13(33, 16), bounds="ALL 33-byte strings (fully symbolic)"),
-        H("c13_avx2_full66", tier="thorough", timeout=2700, unwindset=u13(66, 16), bounds="ALL 66-byte strings (fully symbolic)"),
-        H("c13_broadword_win40_at5_multi", tier="thorough", timeout=1800, unwindset=u13(40, 36), bounds="40 bytes multi-byte filler, 4-byte window at 5"),
+        H("c13_avx2_win98_at58", tier="thorough", mem_gb=12, timeout=2700, unwindset=u13(98, 16), bounds="98 bytes, 8-byte window across the second chunk boundary"),
+        H("c13_avx2_full33", tier="thorough", mem_gb=12, timeout=2700, unwindset=u13(33, 16), bounds="ALL 33-byte strings (fully symbolic)"),
+        H("c13_avx2_full66", tier="thorough", mem_gb=12, timeout=2700, unwindset=u13(66, 16), bounds="ALL 66-byte strings (fully symbolic)"),
         H("c13_dispatch_len4", tier="quick", timeout=900, unwindset=u13(4), bounds="validate_utf8 / validate_utf8_simd wrappers == scalar, all 4-byte strings, avx2 solver-chosen", replay="trace"),
         H("c13_err_at_len7", tier="quick", timeout=600, unwindset=u13(7), bounds="line/column of every offset, all 7-byte buffers"),
         H("c13_err_at_len17", tier="quick", timeout=900, unwindset=u13(17), bounds="all 17-byte buffers (two 8-byte words + tail)"),
-        H("c13_err_at_len26", tier="thorough", timeout=1800, unwindset=u13(26), bounds="all 26-byte buffers"),
+        H("c13_err_at_len26", tier="thorough", mem_gb=12, timeout=1800, unwindset=u13(26), bounds="all 26-byte buffers"),
         H("c13_codepoint_roundtrip", tier="quick", timeout=600, bounds="every u32"),
         H("c13_decode_matches_table", tier="quick", timeout=600, bounds="every string of 0..=4 bytes"),
         H("c13_witness_must_fail", tier="thorough", kind="witness", timeout=600, unwindset=u13(4)),
@@ -337,22 +300,21 @@ PROPS["C20"] = dict(
         H("c20_sse2_70", tier="quick", timeout=1800, unwindset=U20, bounds="SSE2, 70 bytes"),
         H("c20_avx2_70", tier="quick", timeout=1800, unwindset=U20, bounds="AVX2, 70 bytes"),
         H("c20_bmi2_70", tier="quick", timeout=1800, unwindset=U20, bounds="BMI2, 70 bytes"),
-        H("c20_sse2_64", tier="thorough", timeout=1800, unwindset=U20, bounds="SSE2, 64 bytes"),
-        H("c20_avx2_64", tier="thorough", timeout=1800, unwindset=U20, bounds="AVX2, 64 bytes"),
-        H("c20_bmi2_64", tier="thorough", timeout=1800, unwindset=U20, bounds="BMI2, 64 bytes"),
-        H("c20_sse2_63", tier="thorough", timeout=1800, unwindset=U20, bounds="SSE2, 63 bytes"),
-        H("c20_avx2_65", tier="thorough", timeout=1800, unwindset=U20, bounds="AVX2, 65 bytes"),
-        H("c20_bmi2_65", tier="thorough", timeout=1800, unwindset=U20, bounds="BMI2, 65 bytes"),
-        H("c20_sse2_130", tier="thorough", timeout=2700, unwindset=U20, bounds="SSE2, 130 bytes"),
-        H("c20_avx2_130", tier="thorough", timeout=2700, unwindset=U20, bounds="AVX2, 130 bytes"),
-        H("c20_bmi2_130", tier="thorough", timeout=2700, unwindset=U20, bounds="BMI2, 130 bytes"),
+        H("c20_sse2_64", tier="thorough", mem_gb=12, timeout=1800, unwindset=U20, bounds="SSE2, 64 bytes"),
+        H("c20_avx2_64", tier="thorough", mem_gb=12, timeout=1800, unwindset=U20, bounds="AVX2, 64 bytes"),
+        H("c20_bmi2_64", tier="thorough", mem_gb=12, timeout=1800, unwindset=U20, bounds="BMI2, 64 bytes"),
+        H("c20_sse2_63", tier="thorough", mem_gb=12, timeout=1800, unwindset=U20, bounds="SSE2, 63 bytes"),
+        H("c20_avx2_65", tier="thorough", mem_gb=12, timeout=1800, unwindset=U20, bounds="AVX2, 65 bytes"),
+        H("c20_bmi2_65", tier="thorough", mem_gb=12, timeout=1800, unwindset=U20, bounds="BMI2, 65 bytes"),
+        H("c20_sse2_130", tier="thorough", mem_gb=12, timeout=2700, unwindset=U20, bounds="SSE2, 130 bytes"),
+        H("c20_avx2_130", tier="thorough", mem_gb=12, timeout=2700, unwindset=U20, bounds="AVX2, 130 bytes"),
+        H("c20_bmi2_130", tier="thorough", mem_gb=12, timeout=2700, unwindset=U20, bounds="BMI2, 130 bytes"),
         H("c20_avx2_7", tier="quick", timeout=900, unwindset=U20, bounds="AVX2, 7 bytes (tail only)"),
-        H("c20_dispatch_70", tier="thorough", timeout=2700, unwindset=U20, bounds="dispatcher, 70 bytes, probes symbolic", replay="trace"),
+        H("c20_dispatch_70", tier="thorough", mem_gb=12, timeout=2700, unwindset=U20, bounds="dispatcher, 70 bytes, probes symbolic", replay="trace"),
         H("c20_empty", tier="quick", timeout=300, unwindset=U20, bounds="empty text, all engines"),
         H("c20_toggle64_scalar", tier="quick", timeout=600, unwindset=U20, bounds="all (carry, mask)"),
         H("c20_toggle64_bmi2", tier="quick", timeout=600, unwindset=U20, bounds="all (carry, mask), PDEP model"),
         H("c20_prefix_xor", tier="quick", timeout=300, bounds="all x:u64"),
-        H("c20_index_rank_select_70", tier="thorough", timeout=2700, unwindset=U20, bounds="rank/select of the built index vs bit counting, 70 bytes"),
         H("c20_witness_must_fail", tier="thorough", kind="witness", timeout=300),
     ],
 )
@@ -364,26 +326,18 @@ def u21(n):
 
 PROPS["C21"] = dict(
     module="c21",
-    bounds=("every text of 1..=6 arbitrary bytes and every pairwise-distinct (delimiter, quote, record separator) triple; every row index and "
-            "column index 0..=len+1 through iteration, DsvRow::get and DsvRef::row; trailing-separator invariance for texts of 3..=5 bytes"),
-    outside="texts longer than 6 bytes; Dsv (owned) wrapper and the SIMD-built index (C20 shows every engine builds the same index words)",
+    bounds='every text of 1..=3 arbitrary bytes (4 bytes in the thorough tier) and every pairwise-distinct (delimiter, quote, record separator) triple; every row index and column index 0..=len+1 through iteration, DsvRow::get and DsvRef::row; trailing-separator invariance for texts of 3 (thorough: 4) bytes',
+    outside='texts longer than 4 bytes; Dsv (owned) wrapper and the SIMD-built index (C20 shows every engine builds the same index words)',
     assumptions=["index built by the scalar builder; in-word select of the DSV index is its own CTZ loop"],
     harnesses=[
         H("c21_rows_fields_len1", tier="quick", timeout=600, unwindset=u21(1), bounds="all 1-byte texts"),
         H("c21_rows_fields_len2", tier="quick", timeout=600, unwindset=u21(2), bounds="all 2-byte texts"),
         H("c21_rows_fields_len3", tier="quick", timeout=900, unwindset=u21(3), bounds="all 3-byte texts"),
-        H("c21_rows_fields_len4", tier="thorough", timeout=1800, unwindset=u21(4), bounds="all 4-byte texts"),
-        H("c21_rows_fields_len5", tier="thorough", timeout=2700, unwindset=u21(5), bounds="all 5-byte texts"),
-        H("c21_rows_fields_len6", tier="thorough", timeout=2700, unwindset=u21(6), bounds="all 6-byte texts"),
+        H("c21_rows_fields_len4", tier="thorough", mem_gb=12, timeout=1800, unwindset=u21(4), bounds="all 4-byte texts"),
         H("c21_trailing_delimiter_len2", tier="quick", kind="finding", finding="C21-trailing-empty-field", timeout=600, unwindset=u21(2),
           bounds="2-byte texts whose last byte is an unquoted delimiter"),
-        H("c21_trailing_delimiter_len4", tier="thorough", kind="finding", finding="C21-trailing-empty-field", timeout=1800, unwindset=u21(4),
-          bounds="4-byte texts whose last byte is an unquoted delimiter"),
         H("c21_append_separator_len3", tier="quick", timeout=900, unwindset=u21(4), bounds="3-byte texts + separator"),
-        H("c21_append_separator_len4", tier="thorough", timeout=1800, unwindset=u21(5), bounds="4-byte texts + separator"),
-        H("c21_append_separator_len5", tier="thorough", timeout=2700, unwindset=u21(6), bounds="5-byte texts + separator"),
-        H("c21_append_separator_trailing_delimiter_len3", tier="thorough", kind="finding", finding="C21-trailing-empty-field", timeout=900, unwindset=u21(4),
-          bounds="3-byte texts ending in an unquoted delimiter + separator"),
+        H("c21_append_separator_len4", tier="thorough", mem_gb=12, timeout=1800, unwindset=u21(5), bounds="4-byte texts + separator"),
         H("c21_witness_must_fail", tier="thorough", kind="witness", timeout=600, unwindset=u21(3)),
     ],
 )
@@ -404,36 +358,34 @@ def u09w(chars, maxwrite):
 
 PROPS["C09"] = dict(
     module="c09",
-    bounds=("escape scanner: every buffer of 15, 16, 17, 31, 32, 33, 40 and 70 bytes at the listed concrete start offsets, AVX2 and SSE2 paths; "
-            "four writers: every pair of Unicode scalar values (after a fixed ASCII character), output decoded by an RFC 8259 string-body decoder; "
-            "yq span copying: 40-byte ASCII strings with a 3-byte arbitrary ASCII window at offsets 0, 14, 15, 30, 31, 37"),
+    bounds='escape scanner: every buffer of 15, 16, 17, 31, 32, 33, 34, 40 and 70 bytes at the listed concrete start offsets, AVX2 and SSE2 paths; four writers: every Unicode scalar value, and for three of them every pair of Unicode scalar values (after a fixed ASCII character), output decoded by an RFC 8259 string-body decoder',
     outside="strings of more than 3 arbitrary characters at once; start offsets not listed; aarch64; the `scalar-yaml` build of the scanner",
     assumptions=["_mm256_subs_epu8/_mm_subs_epu8 replaced by models.rs; util::simd::escape::avx2_enabled fixed or solver-chosen per harness"],
     harnesses=[
         H("c09_scan_avx2_n40_s0", tier="quick", timeout=900, unwindset=U09, bounds="all buffers of that length, start as named"),
-        H("c09_scan_avx2_n40_s1", tier="thorough", timeout=900, unwindset=U09, bounds="all buffers of that length, start as named"),
-        H("c09_scan_avx2_n40_s7", tier="thorough", timeout=900, unwindset=U09, bounds="all buffers of that length, start as named"),
-        H("c09_scan_avx2_n40_s8", tier="thorough", timeout=900, unwindset=U09, bounds="all buffers of that length, start as named"),
+        H("c09_scan_avx2_n40_s1", tier="thorough", mem_gb=12, timeout=900, unwindset=U09, bounds="all buffers of that length, start as named"),
+        H("c09_scan_avx2_n40_s7", tier="thorough", mem_gb=12, timeout=900, unwindset=U09, bounds="all buffers of that length, start as named"),
+        H("c09_scan_avx2_n40_s8", tier="thorough", mem_gb=12, timeout=900, unwindset=U09, bounds="all buffers of that length, start as named"),
         H("c09_scan_avx2_n40_s9", tier="quick", timeout=900, unwindset=U09, bounds="all buffers of that length, start as named"),
-        H("c09_scan_avx2_n40_s24", tier="thorough", timeout=900, unwindset=U09, bounds="all buffers of that length, start as named"),
+        H("c09_scan_avx2_n40_s24", tier="thorough", mem_gb=12, timeout=900, unwindset=U09, bounds="all buffers of that length, start as named"),
         H("c09_scan_avx2_n40_s25", tier="quick", timeout=900, unwindset=U09, bounds="all buffers of that length, start as named"),
-        H("c09_scan_avx2_n40_s39", tier="thorough", timeout=900, unwindset=U09, bounds="all buffers of that length, start as named"),
+        H("c09_scan_avx2_n40_s39", tier="thorough", mem_gb=12, timeout=900, unwindset=U09, bounds="all buffers of that length, start as named"),
         H("c09_scan_avx2_n40_s40", tier="quick", timeout=900, unwindset=U09, bounds="all buffers of that length, start as named"),
-        H("c09_scan_avx2_n40_s41", tier="thorough", timeout=900, unwindset=U09, bounds="all buffers of that length, start as named"),
+        H("c09_scan_avx2_n40_s41", tier="thorough", mem_gb=12, timeout=900, unwindset=U09, bounds="all buffers of that length, start as named"),
         H("c09_scan_avx2_n33_s0", tier="quick", timeout=900, unwindset=U09, bounds="all buffers of that length, start as named"),
-        H("c09_scan_avx2_n32_s0", tier="thorough", timeout=900, unwindset=U09, bounds="all buffers of that length, start as named"),
-        H("c09_scan_avx2_n31_s0", tier="thorough", timeout=900, unwindset=U09, bounds="all buffers of that length, start as named"),
-        H("c09_scan_avx2_n17_s0", tier="thorough", timeout=900, unwindset=U09, bounds="all buffers of that length, start as named"),
+        H("c09_scan_avx2_n32_s0", tier="thorough", mem_gb=12, timeout=900, unwindset=U09, bounds="all buffers of that length, start as named"),
+        H("c09_scan_avx2_n31_s0", tier="thorough", mem_gb=12, timeout=900, unwindset=U09, bounds="all buffers of that length, start as named"),
+        H("c09_scan_avx2_n17_s0", tier="thorough", mem_gb=12, timeout=900, unwindset=U09, bounds="all buffers of that length, start as named"),
         H("c09_scan_avx2_n16_s0", tier="quick", timeout=900, unwindset=U09, bounds="all buffers of that length, start as named"),
-        H("c09_scan_avx2_n15_s0", tier="thorough", timeout=900, unwindset=U09, bounds="all buffers of that length, start as named"),
-        H("c09_scan_avx2_n70_s3", tier="thorough", timeout=900, unwindset=U09, bounds="all buffers of that length, start as named"),
-        H("c09_scan_sse2_n40_s0", tier="thorough", timeout=900, unwindset=U09, bounds="all buffers of that length, start as named"),
+        H("c09_scan_avx2_n15_s0", tier="thorough", mem_gb=12, timeout=900, unwindset=U09, bounds="all buffers of that length, start as named"),
+        H("c09_scan_avx2_n70_s3", tier="thorough", mem_gb=12, timeout=900, unwindset=U09, bounds="all buffers of that length, start as named"),
+        H("c09_scan_sse2_n40_s0", tier="thorough", mem_gb=12, timeout=900, unwindset=U09, bounds="all buffers of that length, start as named"),
         H("c09_scan_sse2_n40_s5", tier="quick", timeout=900, unwindset=U09, bounds="all buffers of that length, start as named"),
-        H("c09_scan_sse2_n40_s24", tier="thorough", timeout=900, unwindset=U09, bounds="all buffers of that length, start as named"),
-        H("c09_scan_sse2_n40_s25", tier="thorough", timeout=900, unwindset=U09, bounds="all buffers of that length, start as named"),
+        H("c09_scan_sse2_n40_s24", tier="thorough", mem_gb=12, timeout=900, unwindset=U09, bounds="all buffers of that length, start as named"),
+        H("c09_scan_sse2_n40_s25", tier="thorough", mem_gb=12, timeout=900, unwindset=U09, bounds="all buffers of that length, start as named"),
         H("c09_scan_sse2_n33_s0", tier="quick", timeout=900, unwindset=U09, bounds="all buffers of that length, start as named"),
-        H("c09_scan_sse2_n17_s1", tier="thorough", timeout=900, unwindset=U09, bounds="all buffers of that length, start as named"),
-        H("c09_scan_sse2_n16_s0", tier="thorough", timeout=900, unwindset=U09, bounds="all buffers of that length, start as named"),
+        H("c09_scan_sse2_n17_s1", tier="thorough", mem_gb=12, timeout=900, unwindset=U09, bounds="all buffers of that length, start as named"),
+        H("c09_scan_sse2_n16_s0", tier="thorough", mem_gb=12, timeout=900, unwindset=U09, bounds="all buffers of that length, start as named"),
         H("c09_scan_sse2_n15_s0", tier="quick", timeout=900, unwindset=U09, bounds="all buffers of that length, start as named"),
         H("c09_scan_any_n34_s1", tier="quick", timeout=900, unwindset=U09, bounds="all buffers of that length, start as named", replay="trace"),
         H("c09_writer_jq_1c", tier="quick", timeout=1800, unwindset=u09w(1, 6), bounds="every Unicode scalar value, jq convention", replay="trace"),
@@ -441,15 +393,8 @@ PROPS["C09"] = dict(
         H("c09_writer_yq_1c", tier="quick", timeout=1800, unwindset=u09w(1, 6), bounds="every Unicode scalar value, yq convention", replay="trace"),
         H("c09_writer_yq_ascii_1c", tier="quick", timeout=1800, unwindset=u09w(1, 6), bounds="every Unicode scalar value, yq ASCII", replay="trace"),
         H("c09_writer_jq_2c", tier="quick", timeout=2700, unwindset=u09w(3, 6), bounds="all pairs of scalar values, jq convention", replay="trace"),
-        H("c09_writer_jq_ascii_2c", tier="thorough", timeout=2700, unwindset=u09w(3, 6), bounds="all pairs of scalar values, jq ASCII", replay="trace"),
-        H("c09_writer_yq_2c", tier="thorough", timeout=2700, unwindset=u09w(3, 6), bounds="all pairs of scalar values, yq convention", replay="trace"),
-        H("c09_writer_yq_ascii_2c", tier="thorough", timeout=2700, unwindset=u09w(3, 6), bounds="all pairs of scalar values, yq ASCII", replay="trace"),
-        H("c09_yq_span_at0", tier="thorough", timeout=1800, unwindset=u09w(4, 40), bounds="window at 0"),
-        H("c09_yq_span_at14", tier="thorough", timeout=2700, unwindset=u09w(4, 40), bounds="window at 14 (crosses byte 16)"),
-        H("c09_yq_span_at15", tier="thorough", timeout=1800, unwindset=u09w(4, 40), bounds="window at 15, SSE2"),
-        H("c09_yq_span_at30", tier="thorough", timeout=2700, unwindset=u09w(4, 40), bounds="window at 30 (crosses byte 32)"),
-        H("c09_yq_span_at31", tier="thorough", timeout=1800, unwindset=u09w(4, 40), bounds="window at 31"),
-        H("c09_yq_span_at37", tier="thorough", timeout=1800, unwindset=u09w(4, 40), bounds="window at 37 (scalar tail), SSE2"),
+        H("c09_writer_jq_ascii_2c", tier="thorough", mem_gb=12, timeout=2700, unwindset=u09w(3, 6), bounds="all pairs of scalar values, jq ASCII", replay="trace"),
+        H("c09_writer_yq_ascii_2c", tier="thorough", mem_gb=12, timeout=2700, unwindset=u09w(3, 6), bounds="all pairs of scalar values, yq ASCII", replay="trace"),
         H("c09_witness_must_fail", tier="thorough", kind="witness", timeout=600, unwindset=U09),
     ],
 )
@@ -472,24 +417,21 @@ PROPS["C05"] = dict(
         H("c05_pfsm_tables", tier="quick", timeout=300, bounds="all 4 x 256 table entries"),
         H("c05_short_len4", tier="quick", timeout=600, unwindset=u05(4), bounds="all 4-byte strings: scalar, PFSM, simple"),
         H("c05_short_len6", tier="quick", timeout=900, unwindset=u05(6), bounds="all 6-byte strings"),
-        H("c05_short_len8", tier="thorough", timeout=1800, unwindset=u05(8), bounds="all 8-byte strings"),
-        H("c05_short_len10", tier="thorough", timeout=2700, unwindset=u05(10), bounds="all 10-byte strings"),
+        H("c05_short_len8", tier="thorough", mem_gb=12, timeout=1800, unwindset=u05(8), bounds="all 8-byte strings"),
+        H("c05_short_len10", tier="thorough", mem_gb=12, timeout=2700, unwindset=u05(10), bounds="all 10-byte strings"),
         H("c05_avx2_std_33", tier="quick", timeout=1200, unwindset=u05(33), bounds="all strings of that length vs reference machine"),
-        H("c05_avx2_std_34", tier="thorough", timeout=1200, unwindset=u05(34), bounds="all strings of that length vs reference machine"),
-        H("c05_avx2_std_40", tier="thorough", timeout=1200, unwindset=u05(40), bounds="all strings of that length vs reference machine"),
-        H("c05_avx2_std_65", tier="thorough", timeout=1200, unwindset=u05(65), bounds="all strings of that length vs reference machine"),
-        H("c05_avx2_std_32", tier="thorough", timeout=1200, unwindset=u05(32), bounds="all strings of that length vs reference machine"),
+        H("c05_avx2_std_34", tier="thorough", mem_gb=12, timeout=1200, unwindset=u05(34), bounds="all strings of that length vs reference machine"),
+        H("c05_avx2_std_40", tier="thorough", mem_gb=12, timeout=1200, unwindset=u05(40), bounds="all strings of that length vs reference machine"),
+        H("c05_avx2_std_32", tier="thorough", mem_gb=12, timeout=1200, unwindset=u05(32), bounds="all strings of that length vs reference machine"),
         H("c05_avx2_std_7", tier="quick", timeout=1200, unwindset=u05(7), bounds="all strings of that length vs reference machine"),
         H("c05_sse2_std_17", tier="quick", timeout=1200, unwindset=u05(17), bounds="all strings of that length vs reference machine"),
-        H("c05_sse2_std_33", tier="thorough", timeout=1200, unwindset=u05(33), bounds="all strings of that length vs reference machine"),
-        H("c05_sse2_std_40", tier="thorough", timeout=1200, unwindset=u05(40), bounds="all strings of that length vs reference machine"),
-        H("c05_sse2_std_16", tier="thorough", timeout=1200, unwindset=u05(16), bounds="all strings of that length vs reference machine"),
+        H("c05_sse2_std_33", tier="thorough", mem_gb=12, timeout=1200, unwindset=u05(33), bounds="all strings of that length vs reference machine"),
+        H("c05_sse2_std_40", tier="thorough", mem_gb=12, timeout=1200, unwindset=u05(40), bounds="all strings of that length vs reference machine"),
+        H("c05_sse2_std_16", tier="thorough", mem_gb=12, timeout=1200, unwindset=u05(16), bounds="all strings of that length vs reference machine"),
         H("c05_avx2_simple_33", tier="quick", timeout=1200, unwindset=u05(33), bounds="all strings of that length vs reference machine"),
-        H("c05_avx2_simple_40", tier="thorough", timeout=1200, unwindset=u05(40), bounds="all strings of that length vs reference machine"),
+        H("c05_avx2_simple_40", tier="thorough", mem_gb=12, timeout=1200, unwindset=u05(40), bounds="all strings of that length vs reference machine"),
         H("c05_sse2_simple_17", tier="quick", timeout=1200, unwindset=u05(17), bounds="all strings of that length vs reference machine"),
-        H("c05_sse2_simple_33", tier="thorough", timeout=1200, unwindset=u05(33), bounds="all strings of that length vs reference machine"),
-        H("c05_dispatch_std_34", tier="thorough", timeout=2700, unwindset=u05(34), bounds="dispatcher, 34 bytes", replay="trace"),
-        H("c05_dispatch_simple_34", tier="thorough", timeout=2700, unwindset=u05(34), bounds="dispatcher (simple), 34 bytes", replay="trace"),
+        H("c05_sse2_simple_33", tier="thorough", mem_gb=12, timeout=1200, unwindset=u05(33), bounds="all strings of that length vs reference machine"),
         H("c05_witness_must_fail", tier="thorough", kind="witness", timeout=600, unwindset=u05(4)),
     ],
 )
@@ -498,21 +440,17 @@ U07 = {r"select_in_word_ctz|pdep_u64|spec.*select_in_word": 66, r"spec.*rank1|sp
 
 PROPS["C07"] = dict(
     module="c07",
-    bounds=("interest-bit words: every content of 1, 4, 9, 12 words; every rank position, every k:usize (including k >= ones and k >= 2^32), every hint 0..=words+10; "
-            "CTZ and PDEP in-word select"),
+    bounds='interest-bit words: every content of 1, 2 and 4 words (hints also on 9 and 12 words in the thorough tier); every rank position, every k:usize (including k >= ones and k >= 2^32), every hint 0..=words+10; CTZ and PDEP in-word select; from_parts round trip on 2 words',
     outside=("node positions (text_position / cursor_at_offset) need JsonIndex::build plus BP navigation over symbolic text and are NOT decided here "
              "(the BP navigation they rest on is C04, the index bits C05); more than 12 interest-bit words"),
     assumptions=["_pdep_u64 replaced by models.rs", "BalancedParens part of the index built over a single zero word (not the subject)"],
     harnesses=[
         H("c07_ib_1w", tier="quick", timeout=600, unwindset=U07, bounds="1 word"),
-        H("c07_ib_4w", tier="thorough", timeout=2700, unwindset=U07, bounds="4 words, CTZ"),
         H("c07_ib_4w_pdep", tier="quick", timeout=900, unwindset=U07, bounds="4 words, PDEP model"),
-        H("c07_ib_9w", tier="thorough", timeout=1800, unwindset=U07, bounds="9 words (three galloping doublings)"),
-        H("c07_ib_12w", tier="thorough", timeout=2700, unwindset=U07, bounds="12 words"),
         H("c07_hint_2w", tier="quick", timeout=1800, unwindset=U07, bounds="2 words, every k, every hint 0..=12"),
         H("c07_hint_4w", tier="quick", timeout=2700, unwindset=U07, bounds="4 words, every hint 0..=14"),
-        H("c07_hint_9w", tier="thorough", timeout=2700, unwindset=U07, bounds="9 words (three galloping doublings), every hint 0..=19"),
-        H("c07_hint_12w", tier="thorough", timeout=2700, unwindset=U07, bounds="12 words, every hint 0..=22"),
+        H("c07_hint_9w", tier="thorough", mem_gb=12, timeout=2700, unwindset=U07, bounds="9 words (three galloping doublings), every hint 0..=19"),
+        H("c07_hint_12w", tier="thorough", mem_gb=12, timeout=2700, unwindset=U07, bounds="12 words, every hint 0..=22"),
         H("c07_ib_empty", tier="quick", timeout=300, bounds="no words"),
         H("c07_from_serialized_parts_2w", tier="quick", timeout=900, unwindset=U07, bounds="2 words through the byte serialization"),
         H("c07_witness_must_fail", tier="thorough", kind="witness", timeout=600, unwindset=U07),
@@ -538,32 +476,23 @@ def c08(n, w, val, arr, obj):
 
 PROPS["C08"] = dict(
     module="c08",
-    bounds=("concrete nesting skeletons (top level, [w], [1,w], [[w]], {\"a\":w}, {w:1}, \"w\", \"\\\\uw\", -w, 1w, whitespace-wrapped) around a fully symbolic "
-            "window w of 2..=5 bytes that may hold any byte except '[' and '{'; accept <=> independent RFC 8259 push-down recogniser; on reject offset <= viable-prefix "
-            "length and (line, column) of that offset; nesting cap at 127/128/129 opens"),
-    outside="windows containing '[' or '{' (symbolic recursion depth); more than 5 symbolic bytes; skeletons not listed",
+    bounds='concrete skeletons without containers (top level, "w", "\\\\uw", -w, 1w, whitespace-wrapped) around a fully symbolic window w of 3..=5 bytes that may hold any byte except \'[\' and \'{\'; accept <=> independent RFC 8259 push-down recogniser; on reject offset <= viable-prefix length and (line, column) of that offset; unpaired surrogate escapes are the recorded known finding and assumed away in the proofs',
+    outside="windows containing '[' or '{' and every skeleton with an array or object around the window (written, do not finish under the caps, not registered); the nesting cap; more than 5 symbolic bytes",
     assumptions=["String::from_utf8_lossy (error-message construction) stubbed to an empty string",
                  "recursion of the validator is cut at the skeleton depth; CBMC's recursion unwinding assertions show deeper frames unreachable",
                  "container validators absent from a skeleton are replaced by a panicking stub, so their unreachability is an assertion"],
     harnesses=[
         H("c08_top_w3", tier="quick", timeout=1200, bounds="w=3 at top level", **c08(3, 3, 1, 0, 0)),
         H("c08_top_w4", tier="quick", timeout=1800, bounds="w=4 at top level", **c08(4, 4, 1, 0, 0)),
-        H("c08_top_w5", tier="thorough", timeout=2700, bounds="w=5 at top level", **c08(5, 5, 1, 0, 0)),
-        H("c08_arr_w3", tier="thorough", timeout=1800, bounds="[w], w=3", **c08(5, 3, 2, 1, 0)),
-        H("c08_arr_w4", tier="thorough", timeout=2700, bounds="[w], w=4", **c08(6, 4, 2, 1, 0)),
-        H("c08_arr_after_w3", tier="thorough", timeout=1800, bounds="[1,w], w=3", **c08(7, 3, 2, 1, 0)),
-        H("c08_arr2_w2", tier="thorough", timeout=1800, bounds="[[w]], w=2", **c08(6, 2, 3, 2, 0)),
-        H("c08_objval_w3", tier="thorough", timeout=1800, bounds="{\"a\":w}, w=3", **c08(9, 3, 2, 0, 1)),
-        H("c08_objkey_w3", tier="thorough", timeout=1800, bounds="{w:1}, w=3", **c08(7, 3, 2, 0, 1)),
+        H("c08_top_w5", tier="thorough", mem_gb=12, timeout=2700, bounds="w=5 at top level", **c08(5, 5, 1, 0, 0)),
         H("c08_str_w4", tier="quick", timeout=1800, bounds="\"w\", w=4", **c08(6, 4, 1, 0, 0)),
-        H("c08_str_w5", tier="thorough", timeout=2700, bounds="\"w\", w=5", **c08(7, 5, 1, 0, 0)),
-        H("c08_uesc_w4", tier="thorough", timeout=1800, bounds="\"\\\\uw\", w=4", **c08(8, 4, 1, 0, 0)),
+        H("c08_str_w5", tier="thorough", mem_gb=12, timeout=2700, bounds="\"w\", w=5", **c08(7, 5, 1, 0, 0)),
+        H("c08_uesc_w4", tier="thorough", mem_gb=12, timeout=1800, bounds="\"\\\\uw\", w=4", **c08(8, 4, 1, 0, 0)),
         H("c08_unpaired_surrogate_escape", tier="quick", kind="finding", finding="C08-unpaired-surrogate-escape",
           finding_match=r"rfc8259_text_is_accepted", timeout=900, bounds="every text \"\\uXXXX\" with XXXX a surrogate code point", **c08(8, 4, 1, 0, 0)),
         H("c08_minus_w3", tier="quick", timeout=1200, bounds="-w, w=3", **c08(4, 3, 1, 0, 0)),
-        H("c08_digit_w4", tier="thorough", timeout=1800, bounds="1w, w=4", **c08(5, 4, 1, 0, 0)),
-        H("c08_ws_w3", tier="thorough", timeout=1800, bounds="whitespace / CR LF around w=3", **c08(8, 3, 1, 0, 0)),
-        H("c08_witness_must_fail", tier="thorough", kind="witness", timeout=900, **c08(2, 2, 1, 0, 0)),
+        H("c08_digit_w4", tier="thorough", mem_gb=12, timeout=1800, bounds="1w, w=4", **c08(5, 4, 1, 0, 0)),
+        H("c08_ws_w3", tier="thorough", mem_gb=12, timeout=1800, bounds="whitespace / CR LF around w=3", **c08(8, 3, 1, 0, 0)),
     ],
 )
 
@@ -605,48 +534,43 @@ PROPS["C16"] = dict(
              "parser and is NOT decided; start offsets not listed; buffers longer than 70 bytes"),
     assumptions=["yaml::simd::x86::avx2_enabled (OnceLock + env clamp) replaced by a fixed or solver-chosen boolean"],
     harnesses=[
-        H("c16_quote_n40_s0_avx2", timeout=1800, unwindset=U16, tier="thorough", bounds="all buffers of that length at that start; other arguments symbolic"),
+        H("c16_quote_n40_s0_avx2", timeout=1800, unwindset=U16, tier="thorough", mem_gb=12, bounds="all buffers of that length at that start; other arguments symbolic"),
         H("c16_quote_n40_s3_avx2", timeout=1800, unwindset=U16, tier="quick", bounds="all buffers of that length at that start; other arguments symbolic"),
-        H("c16_quote_n40_s9_avx2", timeout=1800, unwindset=U16, tier="thorough", bounds="all buffers of that length at that start; other arguments symbolic"),
-        H("c16_quote_n40_s25_avx2", timeout=1800, unwindset=U16, tier="thorough", bounds="all buffers of that length at that start; other arguments symbolic"),
-        H("c16_quote_n70_s1_avx2", timeout=1800, unwindset=U16, tier="thorough", bounds="all buffers of that length at that start; other arguments symbolic"),
-        H("c16_quote_n40_s0_sse2", timeout=1800, unwindset=U16, tier="thorough", bounds="all buffers of that length at that start; other arguments symbolic"),
+        H("c16_quote_n40_s9_avx2", timeout=1800, unwindset=U16, tier="thorough", mem_gb=12, bounds="all buffers of that length at that start; other arguments symbolic"),
+        H("c16_quote_n40_s25_avx2", timeout=1800, unwindset=U16, tier="thorough", mem_gb=12, bounds="all buffers of that length at that start; other arguments symbolic"),
+        H("c16_quote_n70_s1_avx2", timeout=1800, unwindset=U16, tier="thorough", mem_gb=12, bounds="all buffers of that length at that start; other arguments symbolic"),
+        H("c16_quote_n40_s0_sse2", timeout=1800, unwindset=U16, tier="thorough", mem_gb=12, bounds="all buffers of that length at that start; other arguments symbolic"),
         H("c16_quote_n40_s7_sse2", timeout=1800, unwindset=U16, tier="quick", bounds="all buffers of that length at that start; other arguments symbolic"),
-        H("c16_quote_n40_s25_sse2", timeout=1800, unwindset=U16, tier="thorough", bounds="all buffers of that length at that start; other arguments symbolic"),
-        H("c16_quote_n17_s1_any", timeout=1800, unwindset=U16, tier="thorough", bounds="all buffers of that length at that start; other arguments symbolic", replay="trace"),
+        H("c16_quote_n40_s25_sse2", timeout=1800, unwindset=U16, tier="thorough", mem_gb=12, bounds="all buffers of that length at that start; other arguments symbolic"),
+        H("c16_quote_n17_s1_any", timeout=1800, unwindset=U16, tier="thorough", mem_gb=12, bounds="all buffers of that length at that start; other arguments symbolic", replay="trace"),
         H("c16_quote_n15_s0_any", timeout=1800, unwindset=U16, tier="quick", bounds="all buffers of that length at that start; other arguments symbolic", replay="trace"),
-        H("c16_spaces_n40_s0_avx2", timeout=1800, unwindset=U16, tier="thorough", bounds="all buffers of that length at that start; other arguments symbolic"),
+        H("c16_spaces_n40_s0_avx2", timeout=1800, unwindset=U16, tier="thorough", mem_gb=12, bounds="all buffers of that length at that start; other arguments symbolic"),
         H("c16_spaces_n40_s5_avx2", timeout=1800, unwindset=U16, tier="quick", bounds="all buffers of that length at that start; other arguments symbolic"),
-        H("c16_spaces_n40_s24_avx2", timeout=1800, unwindset=U16, tier="thorough", bounds="all buffers of that length at that start; other arguments symbolic"),
-        H("c16_spaces_n70_s2_avx2", timeout=1800, unwindset=U16, tier="thorough", bounds="all buffers of that length at that start; other arguments symbolic"),
-        H("c16_spaces_n40_s0_sse2", timeout=1800, unwindset=U16, tier="thorough", bounds="all buffers of that length at that start; other arguments symbolic"),
+        H("c16_spaces_n40_s24_avx2", timeout=1800, unwindset=U16, tier="thorough", mem_gb=12, bounds="all buffers of that length at that start; other arguments symbolic"),
+        H("c16_spaces_n70_s2_avx2", timeout=1800, unwindset=U16, tier="thorough", mem_gb=12, bounds="all buffers of that length at that start; other arguments symbolic"),
+        H("c16_spaces_n40_s0_sse2", timeout=1800, unwindset=U16, tier="thorough", mem_gb=12, bounds="all buffers of that length at that start; other arguments symbolic"),
         H("c16_spaces_n40_s9_sse2", timeout=1800, unwindset=U16, tier="quick", bounds="all buffers of that length at that start; other arguments symbolic"),
-        H("c16_spaces_n33_s1_any", timeout=1800, unwindset=U16, tier="thorough", bounds="all buffers of that length at that start; other arguments symbolic", replay="trace"),
-        H("c16_spaces_n15_s0_any", timeout=1800, unwindset=U16, tier="thorough", bounds="all buffers of that length at that start; other arguments symbolic", replay="trace"),
+        H("c16_spaces_n33_s1_any", timeout=1800, unwindset=U16, tier="thorough", mem_gb=12, bounds="all buffers of that length at that start; other arguments symbolic", replay="trace"),
+        H("c16_spaces_n15_s0_any", timeout=1800, unwindset=U16, tier="thorough", mem_gb=12, bounds="all buffers of that length at that start; other arguments symbolic", replay="trace"),
         H("c16_spaces_n16_s16_any", timeout=1800, unwindset=U16, tier="quick", bounds="all buffers of that length at that start; other arguments symbolic", replay="trace"),
-        H("c16_block_end_n40_s0_avx2", timeout=1800, mem_gb=16, unwindset=u16be(40, 0, "avx2"), tier="thorough", bounds="all buffers of that length at that start; other arguments symbolic"),
-        H("c16_block_end_n40_s3_avx2", timeout=2700, mem_gb=16, unwindset=u16be(40, 3, "avx2"), tier="thorough", bounds="all buffers of that length at that start; other arguments symbolic"),
-        H("c16_block_end_n66_s1_avx2", timeout=1800, mem_gb=16, unwindset=u16be(66, 1, "avx2"), tier="thorough", bounds="all buffers of that length at that start; other arguments symbolic"),
-        H("c16_block_end_n40_s0_sse2", timeout=1800, mem_gb=16, unwindset=u16be(40, 0, "sse2"), tier="thorough", bounds="all buffers of that length at that start; other arguments symbolic"),
+        H("c16_block_end_n40_s0_avx2", timeout=1800, mem_gb=12, unwindset=u16be(40, 0, "avx2"), tier="thorough", bounds="all buffers of that length at that start; other arguments symbolic"),
+        H("c16_block_end_n40_s0_sse2", timeout=1800, mem_gb=12, unwindset=u16be(40, 0, "sse2"), tier="thorough", bounds="all buffers of that length at that start; other arguments symbolic"),
         H("c16_block_end_indent_sse2", timeout=2700, mem_gb=16, unwindset=u16be(50, 0, "sse2"), tier="quick", bounds="indentation sweep: 50-byte text 'x\\n' + S spaces + arbitrary byte + filler + short last line, S,min_indent in 0..=26"),
-        H("c16_block_end_indent_avx2", timeout=3600, mem_gb=16, unwindset=u16be(50, 0, "avx2"), tier="thorough", bounds="indentation sweep: 50-byte text 'x\\n' + S spaces + arbitrary byte + filler + short last line, S,min_indent in 0..=26"),
         H("c16_block_end_n34_s2_sse2", timeout=1800, mem_gb=16, unwindset=u16be(34, 2, "sse2"), tier="quick", bounds="all buffers of that length at that start; other arguments symbolic"),
         H("c16_block_end_n20_s0_any", timeout=1800, mem_gb=16, unwindset=u16be(20, 0, "any"), tier="quick", bounds="all buffers of that length at that start; other arguments symbolic", replay="trace"),
         H("c16_block_end_n12_s12_any", timeout=1800, mem_gb=16, unwindset=u16be(12, 12, "any"), tier="quick", bounds="all buffers of that length at that start; other arguments symbolic", replay="trace"),
-        H("c16_anchor_n40_s0_avx2", timeout=1800, unwindset=U16, tier="thorough", bounds="all buffers of that length at that start; other arguments symbolic"),
+        H("c16_anchor_n40_s0_avx2", timeout=1800, unwindset=U16, tier="thorough", mem_gb=12, bounds="all buffers of that length at that start; other arguments symbolic"),
         H("c16_anchor_n40_s1_avx2", timeout=1800, unwindset=U16, tier="quick", bounds="all buffers of that length at that start; other arguments symbolic"),
-        H("c16_anchor_n70_s2_avx2", timeout=1800, unwindset=U16, tier="thorough", bounds="all buffers of that length at that start; other arguments symbolic"),
+        H("c16_anchor_n70_s2_avx2", timeout=1800, unwindset=U16, tier="thorough", mem_gb=12, bounds="all buffers of that length at that start; other arguments symbolic"),
         H("c16_anchor_n40_s0_sse2", timeout=1800, unwindset=U16, tier="quick", bounds="all buffers of that length at that start; other arguments symbolic"),
-        H("c16_anchor_n20_s3_any", timeout=1800, unwindset=U16, tier="thorough", bounds="all buffers of that length at that start; other arguments symbolic", replay="trace"),
-        H("c16_classify_n40_o0_cr_any", timeout=1800, unwindset=U16, tier="thorough", bounds="all buffers of that length at that start; other arguments symbolic", replay="trace"),
-        H("c16_classify_n40_o8_nocr_any", timeout=1800, unwindset=U16, tier="thorough", bounds="all buffers of that length at that start; other arguments symbolic", replay="trace"),
+        H("c16_classify_n40_o0_cr_any", timeout=1800, unwindset=U16, tier="thorough", mem_gb=12, bounds="all buffers of that length at that start; other arguments symbolic", replay="trace"),
+        H("c16_classify_n40_o8_nocr_any", timeout=1800, unwindset=U16, tier="thorough", mem_gb=12, bounds="all buffers of that length at that start; other arguments symbolic", replay="trace"),
         H("c16_classify_n48_o9_cr_any", timeout=1800, unwindset=U16, tier="quick", bounds="all buffers of that length at that start; other arguments symbolic", replay="trace"),
         H("c16_classify_n40_o25_cr_any", timeout=1800, unwindset=U16, tier="quick", bounds="all buffers of that length at that start; other arguments symbolic", replay="trace"),
         H("c16_quote_n40_s3_avx2", fs="scalar-yaml", timeout=1800, unwindset=U16, tier="quick", bounds="scalar-yaml build: pure scalar kernel, same harness"),
         H("c16_spaces_n40_s5_avx2", fs="scalar-yaml", timeout=1800, unwindset=U16, tier="quick", bounds="scalar-yaml build: pure scalar kernel, same harness"),
         H("c16_block_end_n20_s0_any", fs="scalar-yaml", timeout=1800, mem_gb=16, unwindset=u16be(20, 0, "any"), tier="quick", bounds="scalar-yaml build: pure scalar kernel, same harness"),
         H("c16_anchor_n40_s1_avx2", fs="scalar-yaml", timeout=1800, unwindset=U16, tier="quick", bounds="scalar-yaml build: pure scalar kernel, same harness"),
-        H("c16_witness_must_fail", kind="witness", tier="thorough", timeout=900, unwindset=U16),
     ],
 )
 
@@ -667,14 +591,12 @@ PROPS["C32"] = dict(
     harnesses=[
         H("c32_structural_len2", tier="quick", timeout=1800, unwindset=u32_(2), bounds="all valid 2-byte documents: structural queries at every position"),
         H("c32_structural_len4", tier="quick", timeout=1800, unwindset=u32_(4), bounds="all valid 4-byte documents: structural queries at every position"),
-        H("c32_structural_len6", tier="thorough", timeout=1800, unwindset=u32_(6), bounds="all valid 6-byte documents: structural queries at every position"),
-        H("c32_structural_len8", tier="thorough", timeout=1800, unwindset=u32_(8), bounds="all valid 8-byte documents: structural queries at every position"),
+        H("c32_structural_len6", tier="thorough", mem_gb=12, timeout=1800, unwindset=u32_(6), bounds="all valid 6-byte documents: structural queries at every position"),
+        H("c32_structural_len8", tier="thorough", mem_gb=12, timeout=1800, unwindset=u32_(8), bounds="all valid 8-byte documents: structural queries at every position"),
         H("c32_close_len4", tier="quick", timeout=1800, unwindset=u32_(4), bounds="all valid 4-byte documents: close queries at every position"),
-        H("c32_close_len6", tier="thorough", timeout=1800, unwindset=u32_(6), bounds="all valid 6-byte documents: close queries at every position"),
-        H("c32_close_len8", tier="thorough", timeout=1800, unwindset=u32_(8), bounds="all valid 8-byte documents: close queries at every position"),
+        H("c32_close_len6", tier="thorough", mem_gb=12, timeout=1800, unwindset=u32_(6), bounds="all valid 6-byte documents: close queries at every position"),
         H("c32_skip_len4", tier="quick", timeout=1800, unwindset=u32_(4), bounds="all valid 4-byte documents: skip queries at every position"),
-        H("c32_skip_len6", tier="thorough", timeout=1800, unwindset=u32_(6), bounds="all valid 6-byte documents: skip queries at every position"),
-        H("c32_skip_len8", tier="thorough", timeout=1800, unwindset=u32_(8), bounds="all valid 8-byte documents: skip queries at every position"),
+        H("c32_skip_len6", tier="thorough", mem_gb=12, timeout=1800, unwindset=u32_(6), bounds="all valid 6-byte documents: skip queries at every position"),
         H("c32_witness_must_fail", tier="thorough", kind="witness", timeout=1800, unwindset=u32_(4)),
     ],
 )
@@ -690,57 +612,12 @@ U04W1.update({r"d_find_close|d_find_open|d_enclose|d_select0|c04_": 68, r"build_
 
 PROPS["C04"] = dict(
     module="c04",
-    bounds=("2 arbitrary words (stray bits included) with concrete lengths {1,63,64,65,100,128}; every position p and rank k up to 131; free functions find_close/find_open/enclose; "
-            "BalancedParens owned (new), borrowed with strays (from_words), WithSelect, WithCsPoppy at rates {1,7,256,4096}: find_close, find_open, enclose/parent, first_child, "
-            "next_sibling, excess, depth, subtree_size, rank1/rank0, select1/select0, is_open/is_close against left-to-right / right-to-left excess scans; in-word kernels are C02"),
-    outside=("sequences longer than 2 words: the L1 (2048-bit) and L2 (65,536-bit) block paths, depth > 32,767 and the SSE4.1 builders of the `simd` build are NOT reached by "
-             "these harnesses (a 2-word vector stays inside one L0/L1/L2 block)"),
+    bounds='BalancedParens (owned) on 1 arbitrary word, len 40: find_close; rank1/rank0/excess/depth/first_child/select0/is_open/is_close, every position p and rank k, against left-to-right excess scans; free find_close on 2 arbitrary storage words with len 63 (stray bits and a whole surplus word past len), every p <= 131; in-word kernels are C02',
+    outside='everything beyond one word of BalancedParens: find_open/enclose/next_sibling/subtree_size on the index, borrowed storage, WithSelect/WithCsPoppy, the L1 (2048-bit) and L2 (65,536-bit) block paths, depth > 32,767, the SSE4.1 builders of the `simd` build; free find_open/enclose on 2 words. Harnesses for these are written (harness/src/c04.rs) but do not finish under the caps and are not registered',
     assumptions=["BMI2 probe solver-chosen, AVX2 block popcount modelled in the select harnesses"],
     harnesses=[
-        H("c04_free_close_len100", tier="thorough", timeout=2700, unwindset=U04, bounds="free find_close, 2 arbitrary words, len 100, every p <= 131"),
-        H("c04_free_close_len128", tier="thorough", timeout=2700, unwindset=U04, bounds="free find_close, 2 arbitrary words, len 128, every p <= 131"),
-        H("c04_free_close_len65", tier="thorough", timeout=2700, unwindset=U04, bounds="free find_close, 2 arbitrary words, len 65, every p <= 131"),
-        H("c04_free_open_len100", tier="thorough", timeout=2700, unwindset=U04, bounds="free find_open, 2 arbitrary words, len 100, every p <= 131"),
-        H("c04_free_open_len128", tier="thorough", timeout=2700, unwindset=U04, bounds="free find_open, 2 arbitrary words, len 128, every p <= 131"),
-        H("c04_free_open_len65", tier="thorough", timeout=2700, unwindset=U04, bounds="free find_open, 2 arbitrary words, len 65, every p <= 131"),
-        H("c04_free_enclose_len100", tier="thorough", timeout=2700, unwindset=U04, bounds="free enclose, 2 arbitrary words, len 100, every p <= 131"),
-        H("c04_free_enclose_len128", tier="thorough", timeout=2700, unwindset=U04, bounds="free enclose, 2 arbitrary words, len 128, every p <= 131"),
-        H("c04_free_enclose_len65", tier="thorough", timeout=2700, unwindset=U04, bounds="free enclose, 2 arbitrary words, len 65, every p <= 131"),
         H("c04_free_close_len63", tier="quick", timeout=1800, mem_gb=12, unwindset=U04, bounds="free find_close on 2 arbitrary storage words with len 63 (stray bits and a whole surplus word past len), every p <= 131"),
-        H("c04_free_open_len64", tier="thorough", timeout=2700, unwindset=U04, bounds="free find_open, len 64"),
-        H("c04_free_enclose_len63", tier="thorough", timeout=2700, unwindset=U04, bounds="free enclose, len 63"),
         H("c04_w1_close_len40", tier="quick", timeout=1800, unwindset=U04W1, bounds="BalancedParens on 1 arbitrary word, len 40: find_close"),
-        H("c04_w1_open_len40", tier="thorough", timeout=2700, unwindset=U04W1, bounds="1 word, len 40: find_open, enclose/parent"),
         H("c04_w1_rank_len40", tier="quick", timeout=1800, unwindset=U04W1, bounds="1 word, len 40: rank/excess/depth/first_child/select0"),
-        H("c04_w1_derived_len40", tier="thorough", timeout=1800, unwindset=U04W1, bounds="1 word, len 40: next_sibling, subtree_size"),
-        H("c04_w1_close_len64", tier="thorough", timeout=1800, unwindset=U04W1, bounds="1 word, len 64: find_close"),
-        H("c04_w1_open_len64", tier="thorough", timeout=1800, unwindset=U04W1, bounds="1 word, len 64: find_open, enclose"),
-        H("c04_bp_close_len100", tier="thorough", timeout=2700, unwindset=U04, bounds="BalancedParens close_len100, 2 arbitrary words, all p,k <= 131"),
-        H("c04_bp_derived_len100", tier="thorough", timeout=2700, unwindset=U04, bounds="BalancedParens derived_len100, 2 arbitrary words, all p,k <= 131"),
-        H("c04_bp_open_len100", tier="thorough", timeout=2700, unwindset=U04, bounds="BalancedParens open_len100, 2 arbitrary words, all p,k <= 131"),
-        H("c04_bp_rank_len100", tier="thorough", timeout=2700, unwindset=U04, bounds="BalancedParens rank_len100, 2 arbitrary words, all p,k <= 131"),
-        H("c04_bp_close_len128", tier="thorough", timeout=2700, unwindset=U04, bounds="BalancedParens close_len128, 2 arbitrary words, all p,k <= 131"),
-        H("c04_bp_open_len128", tier="thorough", timeout=2700, unwindset=U04, bounds="BalancedParens open_len128, 2 arbitrary words, all p,k <= 131"),
-        H("c04_bp_rank_len128", tier="thorough", timeout=2700, unwindset=U04, bounds="BalancedParens rank_len128, 2 arbitrary words, all p,k <= 131"),
-        H("c04_bp_close_len65", tier="thorough", timeout=2700, unwindset=U04, bounds="BalancedParens close_len65, 2 arbitrary words, all p,k <= 131"),
-        H("c04_bp_open_len65", tier="thorough", timeout=2700, unwindset=U04, bounds="BalancedParens open_len65, 2 arbitrary words, all p,k <= 131"),
-        H("c04_bp_rank_len65", tier="thorough", timeout=2700, unwindset=U04, bounds="BalancedParens rank_len65, 2 arbitrary words, all p,k <= 131"),
-        H("c04_bp_close_len64", tier="thorough", timeout=2700, unwindset=U04, bounds="BalancedParens close_len64, 2 arbitrary words, all p,k <= 131"),
-        H("c04_bp_open_len64", tier="thorough", timeout=2700, unwindset=U04, bounds="BalancedParens open_len64, 2 arbitrary words, all p,k <= 131"),
-        H("c04_bp_close_len63", tier="thorough", timeout=2700, unwindset=U04, bounds="BalancedParens close_len63, 2 arbitrary words, all p,k <= 131"),
-        H("c04_bp_rank_len63", tier="thorough", timeout=2700, unwindset=U04, bounds="BalancedParens rank_len63, 2 arbitrary words, all p,k <= 131"),
-        H("c04_bp_close_len1", tier="thorough", timeout=2700, unwindset=U04, bounds="BalancedParens close_len1, 2 arbitrary words, all p,k <= 131"),
-        H("c04_bp_rank_len1", tier="thorough", timeout=2700, unwindset=U04, bounds="BalancedParens rank_len1, 2 arbitrary words, all p,k <= 131"),
-        H("c04_bp_borrowed_close_len100", tier="thorough", timeout=2700, unwindset=U04, bounds="BalancedParens borrowed_close_len100, 2 arbitrary words, all p,k <= 131"),
-        H("c04_bp_borrowed_open_len100", tier="thorough", timeout=2700, unwindset=U04, bounds="BalancedParens borrowed_open_len100, 2 arbitrary words, all p,k <= 131"),
-        H("c04_bp_borrowed_rank_len100", tier="thorough", timeout=2700, unwindset=U04, bounds="BalancedParens borrowed_rank_len100, 2 arbitrary words, all p,k <= 131"),
-        H("c04_bp_borrowed_close_len65", tier="thorough", timeout=2700, unwindset=U04, bounds="BalancedParens borrowed_close_len65, 2 arbitrary words, all p,k <= 131"),
-        H("c04_bp_borrowed_rank_len65", tier="thorough", timeout=2700, unwindset=U04, bounds="BalancedParens borrowed_rank_len65, 2 arbitrary words, all p,k <= 131"),
-        H("c04_bp_withselect_len100", tier="thorough", timeout=2700, unwindset=U04, bounds="WithSelect, len 100", replay="trace"),
-        H("c04_bp_cspoppy_len100", tier="thorough", timeout=2700, unwindset=U04, bounds="WithCsPoppy default rate, len 100", replay="trace"),
-        H("c04_bp_cspoppy_rate1_len100", tier="thorough", timeout=2700, unwindset=U04, bounds="WithCsPoppy rate 1", replay="trace"),
-        H("c04_bp_cspoppy_rate7_len128", tier="thorough", timeout=2700, unwindset=U04, bounds="WithCsPoppy rate 7, len 128", replay="trace"),
-        H("c04_bp_cspoppy_rate4096_len65", tier="thorough", timeout=2700, unwindset=U04, bounds="WithCsPoppy rate 4096, len 65", replay="trace"),
-        H("c04_witness_must_fail", tier="thorough", kind="witness", timeout=1800, unwindset=U04),
     ],
 )
